@@ -67,7 +67,7 @@ def unique_names(base: st.SearchStrategy, n_min: int, n_max: int, exclude: Seque
 @st.composite
 def enum_decl(draw, name: str, max_bits: int = 31, item_names: Optional[st.SearchStrategy] = None,
               max_items: int = 6) -> M.Enum:
-    item_names = item_names or pascal_ident
+    item_names = item_names if item_names is not None else pascal_ident
     n = draw(st.integers(1, max_items))
     names = draw(unique_names(item_names, n, n))
     bits = draw(st.integers(1, max_bits))
@@ -199,7 +199,7 @@ range_bound = st.one_of(
 @st.composite
 def struct_decl(draw, name: str, cfg: SchemaCfg, enums: Sequence[str], structs: Sequence[str]) -> M.Struct:
     n = draw(st.integers(cfg.min_fields, cfg.max_fields))
-    fnames = draw(unique_names(cfg.field_names or lower_ident, n, n))
+    fnames = draw(unique_names((cfg.field_names if cfg.field_names is not None else lower_ident), n, n))
     ids = draw(field_ids(n, cfg.max_fid, cfg.shuffle_ids))
     tstrat = types(cfg.types, enums, structs)
     fields = []
@@ -220,7 +220,7 @@ def data_schema(draw, cfg: Optional[SchemaCfg] = None) -> M.Schema:
     cfg = cfg or SchemaCfg()
     n_e = draw(st.integers(cfg.min_enums, cfg.max_enums))
     n_s = draw(st.integers(cfg.min_structs, cfg.max_structs))
-    names = draw(unique_names(cfg.type_names or pascal_ident, n_e + n_s, n_e + n_s))
+    names = draw(unique_names((cfg.type_names if cfg.type_names is not None else pascal_ident), n_e + n_s, n_e + n_s))
     kinds = draw(st.permutations(["e"] * n_e + ["s"] * n_s))
     decls: List[M.Decl] = []
     enums: List[str] = []
@@ -367,7 +367,7 @@ _num_spellings = st.one_of(
 
 
 def ext_values(ident_pool: Optional[st.SearchStrategy] = None, max_depth: int = 2) -> st.SearchStrategy:
-    ident_pool = ident_pool or any_ident
+    ident_pool = ident_pool if ident_pool is not None else any_ident
     leaf = st.one_of(_num_spellings, string_body, ident_pool.map(M.Ident))
     return st.recursive(leaf, lambda inner: st.lists(inner, min_size=1, max_size=3), max_leaves=6)
 
@@ -450,7 +450,7 @@ class FullCfg:
 @st.composite
 def ext_field_list(draw, min_size: int, max_size: int, keys: Optional[st.SearchStrategy] = None,
                    exclude: Sequence[str] = ()) -> List[Tuple[str, Any]]:
-    keys = keys or lower_ident
+    keys = keys if keys is not None else lower_ident
     n = draw(st.integers(min_size, max_size))
     ks = draw(unique_names(keys, n, n, exclude))
     return [(k, draw(ext_values())) for k in ks]
